@@ -24,4 +24,24 @@ THEOREM CoverAll ==
     BY <2>2 DEF InPieces, Rng
   <2>. QED BY <1>2, <2>1, <2>3 DEF WrapContains
 <1>. QED BY <1>1, <1>2
+=========================================================================
+(* the pieces are proper (non-empty, within the frame) and increasing, for every dimension size *)
+THEOREM ProperAll ==
+  ASSUME NEW Lo \in Int, NEW Hi \in Int, NEW a \in Lo..Hi, NEW b \in Lo..Hi
+  PROVE  LET ps == Pieces(a, b, Lo, Hi)
+         IN /\ \A i \in DOMAIN ps : Lo <= ps[i].s /\ ps[i].s < ps[i].e /\ ps[i].e <= Hi + 1
+            /\ \A i \in 1..(Len(ps) - 1) : ps[i].e <= ps[i + 1].s
+<1>1. CASE a <= b
+  <2>1. Pieces(a, b, Lo, Hi) = <<Rng(a, b + 1)>>
+    BY <1>1 DEF Pieces, Split, Strict, Rng
+  <2>2. DOMAIN <<Rng(a, b + 1)>> = {1} /\ Len(<<Rng(a, b + 1)>>) = 1
+    OBVIOUS
+  <2>. QED BY <1>1, <2>1, <2>2 DEF Rng
+<1>2. CASE a > b
+  <2>1. Pieces(a, b, Lo, Hi) = <<Rng(Lo, b + 1), Rng(a, Hi + 1)>>
+    BY <1>2 DEF Pieces, Split, Strict, Rng
+  <2>2. DOMAIN <<Rng(Lo, b + 1), Rng(a, Hi + 1)>> = {1, 2} /\ Len(<<Rng(Lo, b + 1), Rng(a, Hi + 1)>>) = 2
+    OBVIOUS
+  <2>. QED BY <1>2, <2>1, <2>2 DEF Rng
+<1>. QED BY <1>1, <1>2
 =============================================================================
